@@ -70,6 +70,11 @@ CLAIMED.update({
          "note": "Text fidelity through Lark's Earley tokenisation is BOUNDED only. One known finding: references closer than two characters lose/reorder the characters between them.",
          "tech": BT},
 })
+CLAIMED.update({
+ "C17": {"cat": "other", "text": "Proved for all inputs: ExpressionUtility._next_qual / get_name_and_qualifiers return every dot-separated part of a name in order (recursive spec function, induction through the function's own contract); the Qualified, Matchable, Variable, Header, Term, Equality, Expression constructors keep name, qualifiers and literal value; LarkTransformer.STRING / SIGNED_NUMBER / HEADER / VARIABLE / equality / assignment / expression build the component with the written literal, name, qualifiers, operator and operand order. Bounded: the Earley grammar (no _ambig node, tree == generated AST, layout-insensitive tree and run results) over 500 (thorough 6000) generated programs.",
+         "note": "Unambiguity and layout-insensitivity for ALL programs is a property of the grammar as interpreted by Lark, not of Python functions within reach of contracts: BOUNDED only. LarkTransformer.args / function and FunctionFactory.get_function are covered by the bounded tree comparison only.",
+         "tech": BT},
+})
 NA_REASON = {}
 m = {
  "version": 1, "setup_cmd": "./setup.sh",
